@@ -76,8 +76,15 @@ for n in by_name:
             assigned[n] = pid
 missing = [n for n in by_name if n not in assigned and n not in BASE]
 assert not missing, missing
+# UncondC14 (rewired by the coordinator to C14.recovery_named, no #E = n) and UncondC18 (conc's value-level theorem) are
+# HAND-MAINTAINED since their last edits: never overwritten once they exist
+HAND = {"C14", "C18"}
 mapping = {}
 for pid in PROP:
+    if pid in HAND and os.path.exists(os.path.join(ROOT, "lean", "Props", "Uncond" + pid + ".lean")):
+        mapping[pid] = "Uncond" + pid
+        print(pid, "-> Uncond" + pid, "(hand-maintained, kept)")
+        continue
     ns = "Uncond" + pid
     names = [n for n in by_name if assigned.get(n) == pid]
     txt = "import Proofs.UncondBase\n" + "".join("import %s\n" % i for i in IMPORTS.get(pid, []))
